@@ -248,7 +248,8 @@ func (multi *MultiEpoch) GetBlock(ctx context.Context, params *old_faithful_grpc
 						txNode, err := epochHandler.GetTransactionByCid(ctx, tcid)
 						if err != nil {
 							klog.Errorf("failed to decode Transaction %s: %v", tcid, err)
-							return nil
+							// the request fails: leaving a nil node in allTransactionNodes crashes the loop below
+							return fmt.Errorf("failed to get transaction %s: %w", tcid, err)
 						}
 						mu.Lock()
 						allTransactionNodes[entryIndex][txI] = txNode
